@@ -33,10 +33,11 @@ import (
 //     servers  comma list of  <kind><addr>[!]   kind f graceful server whose listener has File(),
 //                                                    n graceful server whose listener has no File(),
 //                                                    p plain server (no Stop / Address)
-//              addr a small number (the Address() key), "!" = Listen() fails
+//              addr a small number (the Address() key), "!" = Listen() fails, "~" = Stop() returns an error (after stopping)
 //     fail     - | parse | setup | make | first | startup      (stage at which loading this config fails)
 //     flags    r  the first OnRestart callback of this instance returns an error
 //              s  the first OnShutdown callback of this instance returns an error
+//              w  the first OnShutdown callback of this instance takes 150 ms (only matters to c16.signal)
 //
 //   out = segment|segment|...      one per op:  <res>;<events>;<wait bits>
 //     res     ok | err | noinst
@@ -78,13 +79,18 @@ type c16Recorder struct {
 	mu      sync.Mutex
 	events  []c16Event
 	servers []*c16Server
+	sink    io.Writer // child process of c16.signal: every event is also written here, one per line
 }
 
 var c16rec = &c16Recorder{}
 
 func (r *c16Recorder) log(code string, gen, idx int) {
 	r.mu.Lock()
-	r.events = append(r.events, c16Event{len(r.events), code, gen, idx})
+	e := c16Event{len(r.events), code, gen, idx}
+	r.events = append(r.events, e)
+	if r.sink != nil {
+		io.WriteString(r.sink, e.String()+"\n")
+	}
 	r.mu.Unlock()
 }
 
@@ -201,6 +207,7 @@ type c16Server struct {
 	kind       byte
 	addr       string
 	listenFail bool
+	stopErr    bool
 	mu         sync.Mutex
 	lns        []net.Listener
 	served     chan struct{}
@@ -270,7 +277,35 @@ type c16Graceful struct{ *c16Server }
 func (g c16Graceful) Stop() error {
 	c16rec.log("st", g.gen, g.idx)
 	g.halt()
+	if g.stopErr {
+		// (the pause bounds the damage should the caller retry in a tight loop)
+		time.Sleep(200 * time.Microsecond)
+		return errors.New("veriffake: Stop reports an error (as a drain that timed out would)")
+	}
 	return nil
+}
+
+// casket.Stop() under a watchdog: if it has not returned after two seconds (50 ms once the run has seen three hangs) (it loops until the instance list is empty) the
+// instance list is emptied from outside so that it can end, and the hang is reported
+func c16GuardedStop() (hung bool) {
+	done := make(chan struct{})
+	go func() { casket.Stop(); close(done) }()
+	patience := 2 * time.Second
+	if c16Expired >= 3 {
+		patience = 50 * time.Millisecond // the run is a VIOLATION by now: do not spend two seconds on every further hang
+	}
+	select {
+	case <-done:
+		return false
+	case <-time.After(patience):
+	}
+	c16Expired++
+	casket.VerifC16Reset()
+	select {
+	case <-done:
+	case <-time.After(c16Patience()):
+	}
+	return true
 }
 func (g c16Graceful) Address() string { return g.addr }
 func (g c16Graceful) WrapListener(ln net.Listener) net.Listener {
@@ -318,7 +353,18 @@ func c16SetupGen(c *casket.Controller) error {
 		reg("su", c.OnStartup, flags["startup"])
 		reg("rs", c.OnRestart, flags["r"])
 		reg("rf", c.OnRestartFailed, false)
-		reg("sd", c.OnShutdown, flags["s"])
+		slow := flags["w"]
+		c.OnShutdown(func() error {
+			c16rec.log("sd", g, 0)
+			if slow {
+				time.Sleep(150 * time.Millisecond)
+			}
+			if flags["s"] {
+				return fmt.Errorf("veriffake: sd callback fails")
+			}
+			return nil
+		})
+		c.OnShutdown(func() error { c16rec.log("sd", g, 1); return nil })
 		reg("fd", c.OnFinalShutdown, false)
 	}
 	return nil
@@ -331,8 +377,9 @@ func c16SetupSrv(c *casket.Controller) error {
 		if len(args) != 3 {
 			return c.ArgErr()
 		}
-		s := &c16Server{gen: ctx.gen, idx: len(ctx.servers), kind: args[0][0], addr: args[1], listenFail: args[2] == "fail",
-			served: make(chan struct{}), stopCh: make(chan struct{})}
+		s := &c16Server{gen: ctx.gen, idx: len(ctx.servers), kind: args[0][0], addr: args[1], listenFail: strings.HasPrefix(args[2], "fail"),
+			stopErr: strings.HasSuffix(args[2], "+stoperr"),
+			served:  make(chan struct{}), stopCh: make(chan struct{})}
 		c16rec.mu.Lock()
 		c16rec.servers = append(c16rec.servers, s)
 		c16rec.mu.Unlock()
@@ -367,9 +414,10 @@ func init() {
 // ---- case syntax ----
 
 type c16Srv struct {
-	kind byte
-	addr int
-	fail bool
+	kind    byte
+	addr    int
+	fail    bool
+	stopErr bool
 }
 
 type c16Cfg struct {
@@ -384,6 +432,9 @@ func (c c16Cfg) String() string {
 		x := fmt.Sprintf("%c%d", s.kind, s.addr)
 		if s.fail {
 			x += "!"
+		}
+		if s.stopErr {
+			x += "~"
 		}
 		ss = append(ss, x)
 	}
@@ -409,6 +460,10 @@ func c16ParseCfg(s string) (c16Cfg, bool) {
 			if sv.kind != 'f' && sv.kind != 'n' && sv.kind != 'p' {
 				return c, false
 			}
+			if strings.HasSuffix(x, "~") {
+				sv.stopErr = true
+				x = x[:len(x)-1]
+			}
 			if strings.HasSuffix(x, "!") {
 				sv.fail = true
 				x = x[:len(x)-1]
@@ -428,7 +483,7 @@ func c16ParseCfg(s string) (c16Cfg, bool) {
 		return c, false
 	}
 	for _, ch := range p[2] {
-		if ch != 'r' && ch != 's' {
+		if ch != 'r' && ch != 's' && ch != 'w' {
 			return c, false
 		}
 	}
@@ -451,6 +506,9 @@ func c16Input(gen int, c c16Cfg) casket.Input {
 		f := "ok"
 		if s.fail {
 			f = "fail"
+		}
+		if s.stopErr {
+			f += "+stoperr"
 		}
 		fmt.Fprintf(&b, " srv %c a%d %s\n", s.kind, s.addr, f)
 	}
@@ -613,7 +671,9 @@ func c16Eval(f []string) (string, []string) {
 				tags["restart-"+res] = true
 			}
 		case opS == "X":
-			casket.Stop()
+			if c16GuardedStop() {
+				res = "hang"
+			}
 			tags["stop"] = true
 		case strings.HasPrefix(opS, "G"):
 			n, err := strconv.Atoi(opS[1:])
@@ -638,6 +698,9 @@ func c16Eval(f []string) (string, []string) {
 			break
 		}
 		evs := c16Canon(c16rec.since(m))
+		if len(evs) > 200 {
+			evs = append(evs[:200], "truncated")
+		}
 		segs = append(segs, res+";"+strings.Join(evs, ",")+";"+observeWait())
 	}
 
@@ -647,7 +710,7 @@ func c16Eval(f []string) (string, []string) {
 	if late := c16rec.since(m); len(late) > 0 {
 		segs = append(segs, "late;"+strings.Join(c16Canon(late), ",")+";-")
 	}
-	casket.Stop()
+	c16GuardedStop()
 	for _, s := range snapshotServers() {
 		s.halt()
 	}
@@ -686,7 +749,7 @@ func c16Gen(g *hx.Gen) {
 	cfgs := []string{
 		"f1/-/", "f1,n2/-/", "f1,p2/-/", "/-/",
 		"f1/parse/", "f1/setup/", "f1/make/", "f1/first/", "f1/startup/", "f1,f2!/-/", "f1!/-/",
-		"f1/-/r", "n1,f2/-/", "f1/-/s",
+		"f1/-/r", "n1,f2/-/", "f1/-/s", "f1~,f2/-/",
 	}
 	var alpha []string
 	for _, c := range cfgs {
@@ -782,6 +845,9 @@ func c16RandCfg(r *hx.Rng) c16Cfg {
 		s := c16Srv{kind: "ffnp"[r.Intn(4)], addr: 1 + r.Intn(3)}
 		if r.Chance(1, 10) {
 			s.fail = true
+		}
+		if s.kind != 'p' && r.Chance(1, 8) {
+			s.stopErr = true
 		}
 		c.servers = append(c.servers, s)
 	}
